@@ -946,8 +946,41 @@ func TestC20_SharedConfig(t *testing.T) {
 				}
 			}()
 		}
+		// meanwhile other goroutines take Clone()s of the live server configuration (as GetConfigForClient callbacks and
+		// listeners do) and use them: give the clone keys of its own, read them back through a handshake-free path
+		cloneDone := make(chan string, 2)
+		connsDone2 := waitCh(&conns)
+		for g := 0; g < 2; g++ {
+			go func(g int) {
+				start.Wait()
+				for j := 0; ; j++ {
+					cl := sc.Clone()
+					cl.SetSessionTicketKeys([][32]byte{{3, byte(g), byte(j)}})
+					if cl.CipherSuites == nil || len(cl.CipherSuites) != len(sc.CipherSuites) {
+						cloneDone <- "a clone taken while the configuration was in use lost its cipher suite list"
+						return
+					}
+					runtime.Gosched()
+					select {
+					case <-connsDone2:
+						cloneDone <- ""
+						return
+					default:
+					}
+				}
+			}(g)
+		}
 		start.Done()
 		done.Wait()
+		for g := 0; g < 2; g++ {
+			var msg string
+			if _, hung := hx.TryBounded(60*time.Second, func() { msg = <-cloneDone }); hung {
+				hx.Hang(R, "TestC20_SharedConfig", fmt.Sprintf("Clone() / SetSessionTicketKeys on a clone taken from a configuration in use does not return (mode=%s)", mode))
+			}
+			if msg != "" {
+				t.Fatalf("%s (mode=%s)", msg, mode)
+			}
+		}
 		if kl != nil {
 			if atomic.LoadInt32(&kl.overlap) != 0 {
 				t.Fatalf("two connections wrote to the shared KeyLogWriter at the same time (mode=%s, %d connections)", mode, k)
